@@ -69,6 +69,9 @@ NP_POS_OUT = dict([(u, 1) for u in _UN.split()] + [(b, 2) for b in _BIN.split()]
                    ('any', 2), ('all', 2), ('argmax', 2), ('argmin', 2), ('round', 2), ('round_', 2), ('around', 2), ('clip', 3), ('trace', 5),
                    ('take', 3), ('concatenate', 2), ('stack', 2), ('hstack', 9), ('vstack', 9), ('median', 2), ('percentile', 3),
                    ('einsum', 99), ('tensordot', 99), ('kron', 99)])
+# position of a positional `copy` / `overwrite` flag: an argument there (unless literally True for copy) => unknown
+NP_POS_COPY = {'nan_to_num': 1, 'array': 2}
+METHOD_POS_COPY = {'astype': 4}
 METHOD_POS_OUT = {'sum': 2, 'mean': 2, 'prod': 2, 'std': 2, 'var': 2, 'cumsum': 2, 'cumprod': 2, 'max': 1, 'min': 1, 'any': 1, 'all': 1,
                   'argmax': 1, 'argmin': 1, 'round': 1, 'clip': 2, 'dot': 1, 'trace': 4, 'take': 2, 'choose': 1, 'compress': 2, 'ptp': 1}
 SCIPY_FRESH_PREFIX = ('scipy.linalg.', 'scipy.stats.', 'scipy.special.', 'scipy.sparse.csgraph.', 'scipy.io.loadmat',
@@ -97,7 +100,9 @@ METHOD_FLAGS = {'setflags'}   # changes array flags only (not elements / dtype /
 
 BUILTIN_FRESH = set('''len range int float str bool abs min max sum round isinstance issubclass type print hasattr any all
  repr id divmod pow ord chr hash callable format bin hex oct complex bytes bytearray open input slice object super
- locals globals vars dir'''.split())
+ dir'''.split())
+# run arbitrary code on / hand out references to every local name: no rule can bound what they reach
+BUILTIN_OPAQUE = {'exec', 'eval', 'compile', 'locals', 'vars', 'globals', '__import__', 'delattr', 'breakpoint', 'memoryview'}
 BUILTIN_VIEW = set('''list tuple set frozenset dict sorted enumerate zip map filter reversed iter next getattr'''.split())
 VIEW_ATTRS = {'T', 'flat', 'real', 'imag', 'data', 'base', 'mask', 'A', 'A1', 'H', 'mT'}
 SCALAR_ATTRS = {'shape', 'size', 'ndim', 'dtype', 'nnz', 'itemsize', 'nbytes', 'flags', 'strides', 'descr', 'name',
@@ -415,6 +420,7 @@ class Walker:
                 self.unknown(dec, [x for p in ps for x in (self.top.ir(p), cn(self.top.ir(p)))], 'decorator ' + ast.unparse(dec)[:40])
         self.block(self.fd.body, self.top)
         self.tree = ('seq', self.cur)
+        self.rng_tree = self.tree        # the RNG skeleton expresses recursion by `call <self>`; no merged-frame loop needed
         if self.top.recursive:
             self.tree = ('loop', weaken(self.tree))
         self.tree = share_stores(self.tree)
@@ -864,6 +870,15 @@ class Walker:
             self.emit(('draw', 'unknown', 'statement ' + type(st).__name__))
             self.unknown(st, self.all_param_names(), 'statement ' + type(st).__name__)
 
+    def all_local_names(self, sc):
+        out = []
+        while sc is not None:
+            for n in sorted(sc.locals):
+                if sc.kind.get(n) not in ('scalar', 'rng', 'grng', 'unkgen'):
+                    out += [sc.ir(n), cn(sc.ir(n))]
+            sc = sc.parent
+        return out
+
     def all_param_names(self):
         out = []
         for p in all_params(self.fd):
@@ -1148,6 +1163,9 @@ class Walker:
     def call_builtin(self, name, e, sc):
         A, K, _ = self.args_of(e, sc)
         vals = A + list(K.values())
+        if name in BUILTIN_OPAQUE:
+            self.emit(('draw', 'unknown', 'builtin ' + name))
+            return self.unknown(e, flat(vals) + self.all_param_names() + self.all_local_names(sc), 'builtin %s()' % name)
         if name in BUILTIN_FRESH or name.endswith('Error') or name.endswith('Exception') or name.endswith('Warning') or \
                 name in ('KeyboardInterrupt', 'StopIteration', 'SystemExit') or \
                 any(isinstance(s, ast.ClassDef) and s.name == name for s in self.mod.tree.body):
@@ -1180,7 +1198,7 @@ class Walker:
         vals = A + list(K.values())
         tail = d.split('.')[-1]
         if 'out' in K:
-            self.write(K['out'][0], e, 'out=')
+            self.write(uniq(K['out'][0] + K['out'][1]), e, 'out=')
         is_rand = d.startswith('numpy.random.') or d.startswith('random.') or d in ENTROPY_FUNCS or tail == 'rvs'
         is_bct = d.startswith('bct.') or d.split('.')[0] == 'bct'
         if star and not is_bct:
@@ -1221,6 +1239,10 @@ class Walker:
                 tgt = A[i] if i < len(A) else K.get('a', K.get('arr', K.get('dst', (flat(vals), []))))
                 self.write(tgt[0], e, 'np.' + x)
                 return EMPTY
+            if x in NP_POS_COPY and len(e.args) > NP_POS_COPY[x]:
+                pc = e.args[NP_POS_COPY[x]]
+                if not (isinstance(pc, ast.Constant) and pc.value is True):
+                    return self.unknown(e, flat(vals), 'np.%s with positional copy=%s' % (x, ast.unparse(pc)))
             if x == 'array':
                 cp = next((k.value for k in e.keywords if k.arg == 'copy'), None)
                 if cp is not None and not (isinstance(cp, ast.Constant) and cp.value is True):
@@ -1229,7 +1251,7 @@ class Walker:
             if x in NP_FRESH:
                 if x in NP_POS_OUT and len(A) > NP_POS_OUT[x]:
                     for a in A[NP_POS_OUT[x]:]:
-                        self.write(a[0], e, 'positional out of np.' + x)
+                        self.write(uniq(a[0] + a[1]), e, 'positional out of np.' + x)
                 return EMPTY
             if x in NP_VIEW:
                 return viewval(vals)
@@ -1239,6 +1261,8 @@ class Walker:
         if any(d.startswith(p) for p in SCIPY_FRESH_PREFIX):
             if any((k.arg or '').startswith('overwrite') for k in e.keywords):
                 return self.unknown(e, flat(vals), d + ' with overwrite_*')
+            if d.startswith('scipy.linalg.') and (len(e.args) > 2 or any(isinstance(x, ast.Constant) and isinstance(x.value, bool) for x in e.args)):
+                return self.unknown(e, flat(vals), d + ' with positional flags (overwrite_a ... may be among them)')
             return EMPTY
         if d in EXT_FRESH:
             return EMPTY
@@ -1263,13 +1287,13 @@ class Walker:
             if m == 'shuffle' and A:
                 self.write(A[0][0], e, 'rng.shuffle')
             if 'out' in K:
-                self.write(K['out'][0], e, 'out=')
+                self.write(uniq(K['out'][0] + K['out'][1]), e, 'out=')
             return EMPTY
         rv = self.ev(recv, sc)
         A, K, star = self.args_of(e, sc)
         vals = A + list(K.values())
         if 'out' in K:
-            self.write(K['out'][0], e, 'out=')
+            self.write(uniq(K['out'][0] + K['out'][1]), e, 'out=')
         rk = self.risky_kw(e, view_ok=(m == 'astype'))
         if (star and m not in METHOD_STORE and m not in METHOD_INPLACE) or rk:
             if m in DRAW_METHODS:
@@ -1282,6 +1306,8 @@ class Walker:
             return EMPTY
         if m in METHOD_FLAGS:
             return EMPTY
+        if m in METHOD_POS_COPY and len(e.args) > METHOD_POS_COPY[m]:
+            return self.unknown(e, flat([rv] + vals), 'method .%s with positional copy flag' % m)
         if m == 'astype':
             cp = next((k.value for k in e.keywords if k.arg == 'copy'), None)
             if cp is not None and not (isinstance(cp, ast.Constant) and cp.value is True):
@@ -1290,7 +1316,7 @@ class Walker:
         if m in METHOD_FRESH:
             if m in METHOD_POS_OUT and len(A) > METHOD_POS_OUT[m]:
                 for a in A[METHOD_POS_OUT[m]:]:
-                    self.write(a[0], e, 'positional out of .%s()' % m)
+                    self.write(uniq(a[0] + a[1]), e, 'positional out of .%s()' % m)
             return EMPTY
         if m in METHOD_VIEW:
             return viewval([rv] + vals)
@@ -1652,6 +1678,67 @@ def rng_ok(node, seedful, table):
     return []
 
 
+class FlowFail(Exception):
+    pass
+
+
+_RANK = {'fresh': 0, 'used': 1, 'done': 2}
+
+
+def rng_flow(node, q, table):
+    """mirror of RngIR.flow (restart safety): with an int seed every get_rng(seed) -- the function's own and the one in a
+    callee that is handed `seed=seed` -- makes a new generator at position 0, with a RandomState they are one object"""
+    k = node[0]
+    j = lambda a, b: a if _RANK[a] >= _RANK[b] else b
+    if k == 'bindRng':
+        if q != 'fresh':
+            raise FlowFail('get_rng(seed) after the seeded stream was already consumed (int seed restarts, RandomState continues)')
+        return 'fresh'
+    if k == 'draw':
+        if q == 'done':
+            raise FlowFail('draw after the seed parameter was forwarded to a callee')
+        return 'used'
+    if k == 'call':
+        d = table.get(node[1])
+        if d is None:
+            raise FlowFail('call of %s (not in table)' % node[1])
+        if not d[0]:
+            return q
+        if node[2] == 'seedParam':
+            if q != 'fresh':
+                raise FlowFail('seed parameter forwarded to %s after the seeded stream was consumed / forwarded before '
+                               '(an int seed restarts the stream in the callee, a RandomState continues it)' % node[1])
+            return 'done'
+        if q == 'done':
+            raise FlowFail('call of %s after the seed parameter was forwarded' % node[1])
+        return 'used'
+    if k == 'seq':
+        for c in node[1]:
+            q = rng_flow(c, q, table)
+        return q
+    if k == 'branch':
+        return j(rng_flow(node[1], q, table), rng_flow(node[2], q, table))
+    if k == 'loop':
+        q1 = rng_flow(node[1], q, table)
+        i1 = j(q, q1)
+        i2 = j(i1, rng_flow(node[1], i1, table))
+        q3 = rng_flow(node[1], i2, table)
+        if _RANK[q3] > _RANK[i2]:
+            raise FlowFail('loop not stable')
+        return i2
+    return q
+
+
+def rng_fails(skel, has_seed, table):
+    out = uniq(rng_ok(skel, has_seed, table))
+    if has_seed:
+        try:
+            rng_flow(skel, 'fresh', table)
+        except FlowFail as ex:
+            out.append(str(ex))
+    return out
+
+
 class AliasFail(Exception):
     pass
 
@@ -1857,6 +1944,22 @@ def st_rej_setitem(W):
 def st_rej_unknown_np(W):
     np.lib.stride_tricks.sliding_window_view(W, 2, writeable=True)[0] = 0
 
+def st_rej_out_tuple(W):
+    np.abs(W, out=(W,))
+
+def st_rej_positional_copy(W):
+    np.nan_to_num(W, False)
+
+def st_rej_exec(W):
+    exec("W[0, 0] = 1")
+
+def st_rej_locals(W):
+    locals()['W'][0, 0] = 1
+
+def st_rej_vars_alias(W):
+    V = W
+    vars()['V'][0, 0] = 1
+
 def st_rej_break(W, k):
     for i in range(k):
         X = W
@@ -1938,6 +2041,24 @@ def st_rej_rng_reseed(n, seed=None):
 def st_rej_rng_star(R, *a, seed=None):
     return randmio_und(R, *a)
 
+def st_rej_rng_seed_twice(R, seed=None):
+    # int seed: the callee restarts stream k; RandomState(k): the callee continues it => int != RandomState(int)
+    rng = get_rng(seed)
+    x = rng.rand()
+    return x, randmio_und(R, 1, seed=seed)
+
+def st_rej_rng_seed_two_calls(R, seed=None):
+    return randmio_und(R, 1, seed=seed), randmio_und(R, 1, seed=seed)
+
+def st_rej_rng_seed_in_loop(R, seed=None):
+    return [randmio_und(R, 1, seed=seed) for _ in range(3)]
+
+def st_rej_rng_rebind_after_draw(n, seed=None):
+    rng = get_rng(seed)
+    a = rng.rand(n)
+    rng = get_rng(seed)
+    return a, rng.rand(n)
+
 # ---- RNG discipline: must be accepted
 def st_acc_rng_forward_rng(R, seed=None):
     rng = get_rng(seed)
@@ -2002,24 +2123,24 @@ def translate(repo):
     rng = {}
     for k in rng_set:
         w = walker(k, None)
-        rng[rng_names[k]] = {'key': k, 'has_seed': FN[k].has_seed, 'skel': simp(proj_rng(w.tree, rng_names)),
+        rng[rng_names[k]] = {'key': k, 'has_seed': FN[k].has_seed, 'skel': simp(proj_rng(w.rng_tree, rng_names)),
                              'why': [n for n in flat_draws(w.tree)]}
     table = {n: (d['has_seed'], d['skel']) for n, d in rng.items()}
     for n, d in rng.items():
-        d['fails'] = uniq(rng_ok(d['skel'], d['has_seed'], table))
+        d['fails'] = rng_fails(d['skel'], d['has_seed'], table)
     res['rng'] = rng
     # self-test skeletons: a separate table = real table + the synthetic functions (and what they call)
     st_keys = [k for k in FN if k[0] == SELFTEST_MODULE and 'rng' in k[1]]
     st_rng = {}
     for k in st_keys:
         w = walker(k, None)
-        st_rng[k[1]] = {'key': k, 'has_seed': FN[k].has_seed, 'skel': simp(proj_rng(w.tree, rng_names)),
+        st_rng[k[1]] = {'key': k, 'has_seed': FN[k].has_seed, 'skel': simp(proj_rng(w.rng_tree, rng_names)),
                         'expect': 'reject' if k[1].startswith('st_rej') else ('accept' if k[1].startswith('st_acc') else None)}
     st_table = dict(table)
     st_table.update({n: (d['has_seed'], d['skel']) for n, d in st_rng.items()})
     res['selftest_failures'] = []
     for n, d in st_rng.items():
-        d['fails'] = uniq(rng_ok(d['skel'], d['has_seed'], st_table))
+        d['fails'] = rng_fails(d['skel'], d['has_seed'], st_table)
         if d['expect'] == 'reject' and not d['fails']:
             res['selftest_failures'].append('RNG self-test %s was accepted (must be rejected)' % n)
         if d['expect'] == 'accept' and d['fails']:
@@ -2160,6 +2281,10 @@ def emit_rng(res, path):
     L.append('/-- the meta-theorems of Props/C05.lean instantiated for the table generated from the current source -/')
     L.append('theorem all_seeded_sound {f : String} {d : FnDecl} (hf : lookup table f = some d) (hs : d.hasSeed = true)')
     L.append('    {w w\' : World} (h : Exec table .priv d.body w w\') : w\' = w := Bct.C05.disciplined_sound table_ok hf hs h')
+    L.append('theorem all_int_eq_randomState {f : String} {d : FnDecl} (hf : lookup table f = some d) (hs : d.hasSeed = true)')
+    L.append('    (σ : SeedStreams) (ctl : List Nat → Nat → Bool) (n k : Nat) (st : St) :')
+    L.append('    Bct.C05.RelO Bct.C05.SameButPriv (runSeed table σ ctl n (.int k) d.body st) (runSeed table σ ctl n (.randomState k 0) d.body st) :=')
+    L.append('  Bct.C05.runSeed_int_eq_randomState table_ok hf hs σ ctl n k st')
     L.append('theorem all_unseeded_sound {f : String} {d : FnDecl} (hf : lookup table f = some d) (hs : d.hasSeed = true)')
     L.append('    {w w\' : World} (h : Exec table .glob d.body w w\') : w\'.pyGlobal = w.pyGlobal ∧ w\'.untracked = w.untracked :=')
     L.append('  Bct.C05.unseeded_sound table_ok hf hs h')
@@ -2206,7 +2331,7 @@ def lean_alias(node, num, ind=2):
 
 
 def emit_alias(res, path):
-    L = ['import BctVerif.Model.AliasIR',
+    L = ['import BctVerif.Props.C13',
          '/-! GENERATED by translate/effects.py from the bct sources -- do not edit; rewritten by every run of `./check C13`.',
          '    One alias/write IR term per function of the bct namespace (and per helper / `copy` variant they call),',
          '    names numbered per function (0 = return value, parameters first).  Meta-theorem: BctVerif/Props/C13.lean. -/',
@@ -2230,6 +2355,7 @@ def emit_alias(res, path):
     L.append('')
     L.append('def fuel : Nat := %d' % res['alias_fuel'])
     L.append('')
+    sem = []
     for n, d in res['alias'].items():
         if d.get('selftest'):
             L.append('theorem selftest_%s : safe table fuel %d = %s := by decide +kernel' % (n, d['id'], 'false' if d['selftest'] == 'reject' else 'true'))
@@ -2238,8 +2364,16 @@ def emit_alias(res, path):
             continue
         if d['variant'] is False:
             L.append('theorem %s_safe_others : safeExcept table fuel %d [0] = true := by decide +kernel' % (n, d['id']))
+            sem.append('theorem %s_writes_only_first : Bct.C13.NoCallerWriteExcept table %d [0] := Bct.C13.noCallerWriteExcept_of_safeExcept %s_safe_others' % (n, d['id'], n))
         else:
             L.append('theorem %s_safe : safe table fuel %d = true := by decide +kernel' % (n, d['id']))
+            sem.append('theorem %s_no_caller_write : Bct.C13.NoCallerWrite table %d := Bct.C13.noCallerWrite_of_safe %s_safe' % (n, d['id'], n))
+    L.append('')
+    L.append('/-! the meta-theorem of Props/C13.lean instantiated for every function of the table generated from the current source:')
+    L.append('    in every execution of the body (completed or left by an exception), from every frame in which caller-owned arrays are')
+    L.append('    reachable only through the parameters, no write hits a caller-owned location -/')
+    L.append('theorem all_safe_sound {f : Nat} (h : safe table fuel f = true) : Bct.C13.NoCallerWrite table f := Bct.C13.noCallerWrite_of_safe h')
+    L += sem
     L.append('')
     L.append('end Bct.Gen.EffectsAlias')
     write_if_changed(path, '\n'.join(L) + '\n')
